@@ -17,6 +17,7 @@ func newReader(key []byte, stream io.ReadCloser) (_out filesystem.Reader, err er
 		buf []byte
 	)
 	if buf, err = ioutil.ReadAll(stream); err != nil {
+		stream.Close()
 		return nil, err
 	}
 	if err = stream.Close(); err != nil {
